@@ -302,7 +302,17 @@ func (ufs *Ufs) Attach(req *SrvReq) {
 
 func (*Ufs) Flush(req *SrvReq) {}
 
-func (*Ufs) Walk(req *SrvReq) {
+// parent returns the directory that ".." designates for the host path p:
+// its parent directory, or the exported root if p is the root itself.
+func (ufs *Ufs) parent(p string) string {
+	p = filepath.Clean(p)
+	if p == filepath.Clean(ufs.Root) {
+		return p
+	}
+	return filepath.Dir(p)
+}
+
+func (ufs *Ufs) Walk(req *SrvReq) {
 	fid := req.Fid.Aux.(*ufsFid)
 	tc := req.Tc
 
@@ -322,8 +332,13 @@ func (*Ufs) Walk(req *SrvReq) {
 	i := 0
 	for ; i < len(tc.Wname); i++ {
 		p := path + "/" + tc.Wname[i]
+		if tc.Wname[i] == ".." {
+			// resolved here, not by the host: ".." at the root stays at the root
+			p = ufs.parent(path)
+		}
 		st, err := os.Lstat(p)
-		if err != nil {
+		if err != nil || strings.Contains(tc.Wname[i], "/") {
+			// (a name containing '/' is a path, not the name of an entry)
 			if i == 0 {
 				req.RespondError(Enoent)
 				return
